@@ -47,6 +47,14 @@ func main() {
 		from, _ := strconv.Atoi(os.Args[3])
 		to, _ := strconv.Atoi(os.Args[4])
 		os.Exit(props.RaceMain(seed, from, to))
+	case "race18":
+		if len(os.Args) != 4 {
+			fmt.Fprintln(os.Stderr, "usage: vh-race race18 <seed> <iterations>")
+			os.Exit(2)
+		}
+		seed, _ := strconv.ParseUint(os.Args[2], 10, 64)
+		iters, _ := strconv.Atoi(os.Args[3])
+		os.Exit(props.Race18Main(seed, iters))
 	case "list":
 		for _, id := range core.IDs() {
 			fmt.Println(id)
